@@ -466,3 +466,50 @@ Proof.
   intros name cl c L Hc. destruct H as (_ & _ & Hok & _). destruct (Hok _ _ L) as [HF _].
   rewrite Forall_forall in HF. exact (HF _ Hc).
 Qed.
+
+(* membership and the untagged pool are exact complements *)
+Lemma free_complement s a r : acct_inv s -> alookup a (st_proxies s) = Some r ->
+  (pr_cluster r = None <-> ~ In a (all_positions (st_clusters s))).
+Proof.
+  intros (Hps & Hcs & Hok & Hback) L. split.
+  - intros Hn Hin. unfold all_positions in Hin. apply in_flat_map in Hin. destruct Hin as ([n cl] & Hc & Ha). cbn [snd] in Ha.
+    apply In_alookup_sorted in Hc; [|exact Hcs].
+    destruct (in_cluster_tagged _ _ _ _ (Hok _ _ Hc) Ha) as (r' & L' & C'). congruence.
+  - intros Hn. destruct (pr_cluster r) as [n|] eqn:C; [|reflexivity]. exfalso. apply Hn.
+    destruct (Hback _ _ _ L C) as (cl & Lc & Hin). unfold all_positions. apply in_flat_map. exists (n, cl).
+    split; [apply alookup_In; exact Lc|exact Hin].
+Qed.
+
+Lemma positions_registered s a : acct_inv s -> In a (all_positions (st_clusters s)) -> amem a (st_proxies s) = true.
+Proof.
+  intros (Hps & Hcs & Hok & Hback) Hin. unfold all_positions in Hin. apply in_flat_map in Hin.
+  destruct Hin as ([n cl] & Hc & Ha). cbn [snd] in Ha. apply In_alookup_sorted in Hc; [|exact Hcs].
+  destruct (in_cluster_tagged _ _ _ _ (Hok _ _ Hc) Ha) as (r' & L' & C'). apply amem_alookup. eauto.
+Qed.
+
+Lemma reachable_complement s : reachable s ->
+  (forall a, In a (all_positions (st_clusters s)) -> amem a (st_proxies s) = true) /\
+  (forall a r, alookup a (st_proxies s) = Some r -> (pr_cluster r = None <-> ~ In a (all_positions (st_clusters s)))) /\
+  (forall e, In e (free_proxies s) -> ~ In (fst e) (all_positions (st_clusters s))).
+Proof.
+  intros H. apply reachable_inv in H. split; [intros a; apply positions_registered; exact H|].
+  split; [intros a r; apply free_complement; exact H|].
+  intros [a r] Hin. unfold free_proxies in Hin. apply filter_In in Hin. destruct Hin as [Hin Hf].
+  apply is_free_untagged in Hf. cbn [fst]. apply (free_complement s a r H); [|exact Hf].
+  apply In_alookup_sorted; [apply H|exact Hin].
+Qed.
+
+Lemma reachable_closed_run ops : forall s,
+  reachable_closed s -> Forall (fun o => forall snap, o = ORestore snap -> reachable_closed snap) ops ->
+  reachable_closed (run s ops).
+Proof.
+  unfold run. induction ops as [|o ops IH]; intros s H Hf; cbn [fold_left]; [exact H|].
+  inversion Hf; subst. apply IH; [apply rc_step; assumption|assumption].
+Qed.
+
+Definition not_restore (o : op) : bool := match o with ORestore _ => false | _ => true end.
+Lemma no_restore_closed ops :
+  forallb not_restore ops = true -> Forall (fun o => forall snap, o = ORestore snap -> reachable_closed snap) ops.
+Proof.
+  intros H. apply Forall_forall. intros o Hin snap E. rewrite forallb_forall in H. specialize (H _ Hin). subst o. discriminate.
+Qed.
